@@ -536,3 +536,17 @@ impl<C: Client> std::fmt::Debug for MqttRunner<C> {
         f.debug_struct("MqttRunner").finish()
     }
 }
+
+//------------ verification hooks (feature `verif-hooks`, add-only) ----------
+
+#[cfg(feature = "verif-hooks")]
+impl Mqtt {
+    /// Verification hook: the value a `TargetCommand::Reconfigure` for this
+    /// target carries (what serde builds from the configuration file).
+    pub(super) fn verif_new(
+        sources: NonEmpty<DirectLink>,
+        config: Config,
+    ) -> Self {
+        Self { sources, config }
+    }
+}
